@@ -33,11 +33,63 @@ def spki_job(seq, scaled=True, timeout=900, extra=None, prop=None, name_prefix="
                 "ski_spki": "byte 0 symbolic, other bytes zero"}, stubs=SPKI_STUBS)
 
 
+HL_STATE = {0: "stable", 1: "grow", 2: "shrink"}
+HL_OP = {0: "init", 1: "insert", 2: "remove", 3: "remove_existing"}
+
+
+def hl_job(b, state, op, split=0, n=3, bit=1, timeout=900, mem=8, weight=1, memory=False, crange=None, solver=None):
+    big = (1 << (b + 1)) + 2
+    low = (1 << b) if state == 0 else (1 << (b - 1))
+    us = {"tommy_hashlin_remove.0": n + 2, "tommy_hashlin_search.0": n + 3, "hashlin_grow_step.0": n + 3,
+          "hashlin_grow_step.1": (1 << b) + 1, "hashlin_shrink_step.0": (1 << (b - 1)) + 1 if b > 0 else 2,
+          "which_obj.0": n + 3, "scan_bucket.0": n + 4, "scan.0": big}
+    return core.Job(
+        name="hashlin_%s_b%d_%s%s%s%s" % (HL_OP[op], b, HL_STATE[state], (("%d" % split) if state else "") + (("_c%d" % crange[0]) if crange else ""), ("" if bit == 1 else "_bit%d" % bit) + ("" if n == 3 else "_n%d" % n),
+                                         "_mem" if memory else ""),
+        harness="hashlin_step.c", entry="harness",
+        defines=["HL_B=%d" % b, "HL_STATE=%d" % state, "HL_OP=%d" % op, "HL_N=%d" % n] + (["HL_SPLIT=%d" % split] if state else [])
+        + (["HL_CLO=%du" % crange[0], "HL_CHI=%du" % crange[1]] if crange else [])
+        + (["RTRLIB_VERIF_HASHLIN_BIT=%d" % bit] if bit != 6 else []),
+        unwind=max(big, n + 5), unwindset=us, timeout=timeout, mem_gb=mem, sources=SPKI_SOURCES, object_bits=10, weight=weight,
+        memory_checks=memory, flags=(["--no-malloc-may-fail"] if memory else []), solver=(list(solver) if solver else []),
+        desc="real tommyhashlin.c + tommylist: ONE %s from an arbitrary valid container state with %d buckets, %s "
+             "(element count and <=%d objects with free 32-bit hashes symbolic): representation invariant re-established "
+             "(induction step: with the init base case this covers histories of any length), every object addressed per "
+             "specification, search exact%s"
+             % (HL_OP[op], 1 << b, ("resize state '%s' at split position %d of %d" % (HL_STATE[state], split, low)) if state else "stable",
+                n, "; CBMC standard memory checks on" if memory else ""),
+        bounds={"buckets_before": 1 << b, "state": HL_STATE[state], "split": split, "materialised_objects": "<=%d" % n,
+                "initial_bit": bit, "count": ("[%d, %d]" % crange) if crange else "< 2^28, >= materialised objects"},
+        stubs=["typed size-class allocator behind lrtr_malloc/lrtr_free/lrtr_calloc (never fails here)",
+               ("hook RTRLIB_VERIF_HASHLIN_BIT=%d" % bit) if bit != 6 else "unscaled TOMMY_HASHLIN_BIT=6"])
+
+
+def hl_jobs(bs, n=3, bit=1, n_grow=2, **kw):
+    J = [hl_job(bit, 0, 0, n=n, bit=bit, **kw)]
+    for b in bs:
+        for op in (1, 2, 3):
+            if op == 1 and b >= 3:
+                # the element count decides the trip count of the grow loop: one job per class, together [0, 2^28)
+                half, top = (1 << b) // 2, (1 << 28) - 1
+                cl = [(0, half - 1)] + [(half + j, half + j) for j in range(0, half - 1)] + [(2 * half - 1, top)]
+                # (3 objects: 320 s for 6 splits, no verdict in 900 s for 8 -- measured; 2 objects: <= 60 s with MiniSat)
+                J += [hl_job(b, 0, op, n=n_grow, bit=bit, crange=c, **kw) for c in cl]
+            else:
+                J.append(hl_job(b, 0, op, n=n, bit=bit, **kw))
+            if b <= bit:
+                continue
+            for state in (1, 2):
+                for split in range(1, 1 << (b - 1)):
+                    J.append(hl_job(b, state, op, split=split, n=n, bit=bit, **kw))
+    return J
+
+
 def jobs(tier):
     J = []
     quick = [[1], [2], [3], [1, 1], [1, 2], [1, 3]]
     for seq in quick:
         J.append(spki_job(seq, weight=3 if len(seq) > 1 else 1, timeout=1500))
+    J += hl_jobs((1, 2, 3))
     if tier == "thorough":
         three = [list(s) for s in itertools.product((1, 2, 3), repeat=3) if s[0] == 1]
         J += [spki_job(s, timeout=5400, weight=5, mem=28) for s in three]
